@@ -45,6 +45,31 @@ ZeroN == <<0, 0, 0, 0, 0, 0, 0, 0>>
 G1Key(l) == PathKey(Geo(l.from, l.fo, l.to, l.too, ZeroN, l.ov, l.star))
 
 -----------------------------------------------------------------------------
+(* GFA2 documents: the O lines with the same identifier are merged into the
+   first of them (the later ones are kept as place holders of type "#", so that
+   the line numbers stay), then nested groups are expanded (Convert!ExpandItems).
+   Everything below sees one flat O record per group.                          *)
+AllIdx(doc) == [j \in DOMAIN doc |-> j]
+OLinesOf(doc, name) == SelectSeq(AllIdx(doc), LAMBDA j : doc[j].rt = "O" /\ doc[j].name = name)
+MergeO(doc) ==
+  [k \in DOMAIN doc |->
+     IF doc[k].rt # "O" \/ doc[k].name = "*" THEN doc[k]
+     ELSE LET idx == OLinesOf(doc, doc[k].name) IN
+          IF Len(idx) = 1 THEN doc[k]
+          ELSE IF k # idx[1] THEN [doc[k] EXCEPT !.rt = "#"]
+          ELSE [doc[k] EXCEPT !.refs = FlatSeq([n \in DOMAIN idx |-> doc[idx[n]].refs]),
+                              !.tags = FlatSeq([n \in DOMAIN idx |-> doc[idx[n]].tags]),
+                              !.tagn = FlatSeq([n \in DOMAIN idx |-> doc[idx[n]].tagn])]]
+NormO(doc0) ==
+  IF \A k \in DOMAIN doc0 : doc0[k].rt # "O" THEN doc0 ELSE
+  LET doc == MergeO(doc0)
+      other == {doc[k].name : k \in {j \in DOMAIN doc : doc[j].rt \in {"S", "E", "G", "U"}}}
+      gn == {doc[k].name : k \in {j \in DOMAIN doc : doc[j].rt = "O"}} \ (other \cup {"*"})
+      groups == [n \in gn |-> doc[CHOOSE k \in DOMAIN doc : doc[k].rt = "O" /\ doc[k].name = n].refs]
+  IN [k \in DOMAIN doc |-> IF doc[k].rt = "O" THEN [doc[k] EXCEPT !.refs = ExpandItems(doc[k].refs, groups, MaxNesting)]
+                            ELSE doc[k]]
+
+-----------------------------------------------------------------------------
 (* paths *)
 PCirc(x) == x.f[1] # "*" /\ Len(x.ovs) = Len(x.refs)
 PWalk(x) == P1Walk(x.refs, PCirc(x))
@@ -303,8 +328,17 @@ BackEquiv(doc, ver, x, y) ==
     [] x.rt = "O" -> PathBack2(doc, x, y)
     [] OTHER -> FALSE
 BackRts(x) == IF x.rt \in {"L", "C"} THEN {"L", "C"} ELSE {x.rt}
+\* A GFA1 link whose overlap covers a whole segment is in GFA2 an edge with `$`
+\* at both ends of that segment, which classifies as a containment (oracle
+\* choice (b)).  A GFA1 path goes through links only: a path over such a link
+\* has no way back (it must not come back unsupported either: the document that
+\* comes back has to load).
+LinkStaysLink(doc, l) == ClassOf(LinkToEdge(l, LenIn(doc, l.from), LenIn(doc, l.to))) = "L"
+NoWayBackP(doc, x) ==
+  x.rt = "P" /\ \E k \in 1..(Len(PWalk(x)) - 1) :
+                  \A j \in PCarriers(doc, x, k) : ~LinkStaysLink(doc, AsG1(doc[j]))
 RoundOK(doc, ver, back) ==
-  LET conv == {k \in Body(doc) : Convertible(doc, doc[k])} IN
+  LET conv == {k \in Body(doc) : Convertible(doc, doc[k]) /\ ~(ver = "gfa1" /\ NoWayBackP(doc, doc[k]))} IN
   /\ \A k \in conv : \E m \in Idx(back, BackRts(doc[k])) : BackEquiv(doc, ver, doc[k], back[m])
   /\ \A m \in Body(back) : \E k \in conv : back[m].rt \in BackRts(doc[k]) /\ BackEquiv(doc, ver, doc[k], back[m])
   /\ Cardinality(Body(back)) = Cardinality(conv)
@@ -359,7 +393,7 @@ Back(c, doc) ==
   ELSE IF RoundOK(doc, c.ver, Recs(c.bk[2])) THEN {} ELSE Tag("roundtrip", {"C06.roundtrip"})
 
 Fails(c) ==
-  LET doc == Recs(c.inp) IN
+  LET doc == IF c.ver = "gfa2" THEN NormO(Recs(c.inp)) ELSE Recs(c.inp) IN
   IF Outside(doc, c.ver) THEN {<<"input", "outside">>}
   ELSE UNION {LineLevel(c, doc, j, 1, "line_s") \cup LineLevel(c, doc, j, 2, "line") \cup AccLevel(c, doc, j)
               : j \in DOMAIN doc}
